@@ -118,11 +118,45 @@ def gen(tier, rng):
             cases.append(Case(sess.session(run_calls(pz, [])), sig="\n".join(pb) + "\n#renumbered from %d step %d" % (start, step), tag="renumber",
                               meta=("same", pi, {mz[l]: mb[l] for l in labels})))
             cases.append(Case(sess.compile_case(pz), sig="compile\n" + "\n".join(pz), tag="compile"))
+    # (b') statements behind an unconditional transfer on the same line -- DATA, WEND, NEXT, DEF, a second jump -- are not run
+    # through, but they are still part of the program: the joined line and its two halves on consecutive lines behave alike
+    BEHIND = [
+        (["10 READ A:PRINT A;", "20 GOTO 40:DATA 2", "30 DATA 9", "40 READ B:PRINT B;:RESTORE 20:READ C:PRINT C"], 20),
+        (["10 I=I+1:IF I>3 THEN 40", "20 WHILE I<3:PRINT I;:GOTO 10:WEND", "30 PRINT \"out\";", "40 PRINT \"end\""], 20),
+        (["10 GOSUB 100:READ A,B:PRINT A;B", "20 END:DATA 5", "30 DATA 6", "100 RETURN:DATA 4"], 20),
+        (["10 GOSUB 100:READ A,B:PRINT A;B", "20 END:DATA 5", "30 DATA 6", "100 RETURN:DATA 4"], 100),
+        (["10 FOR I=1 TO 2:PRINT I;:GOTO 30:NEXT", "30 NEXT:PRINT \"done\""], 10),
+        (["10 ON 1 GOTO 40:DATA 2", "40 READ B:PRINT B"], 10),
+        (["10 GOTO 40:DEF FNA(X)=X+1", "40 PRINT \"t\";:PRINT FNA(1)"], 10),
+        (["10 GOTO 40:GOTO 50", "40 PRINT \"forty\";", "50 PRINT \"fifty\""], 10),
+        (["10 N=N+1:IF N>2 THEN END", "20 RUN 40:DATA 7,8", "40 READ A:PRINT A;:GOTO 10:DATA 9"], 20),
+        (["10 N=N+1:IF N>2 THEN END", "20 RUN 40:DATA 7,8", "40 READ A:PRINT A;:GOTO 10:DATA 9"], 40),
+        (["10 WHILE N<2:N=N+1:GOSUB 50:WEND:PRINT \"w\";N:END", "50 PRINT \"s\";:RETURN:WEND"], 50),
+        (["10 STOP:DATA 1", "20 READ A:PRINT A"], 10),
+        (["10 GOTO 30:REM gone", "20 PRINT \"skipped\"", "30 PRINT \"here\""], 10),
+    ]
+    pi = nprog + 50
+    for prog, at in BEHIND:
+        cases.append(Case(sess.session(run_calls(prog, [])), sig="\n".join(prog), tag="base", meta=("base", pi, None)))
+        cases.append(Case(sess.compile_case(prog), sig="compile\n" + "\n".join(prog), tag="compile"))
+        out = []
+        for l in prog:
+            n, rest = l.split(" ", 1)
+            if int(n) == at:
+                parts = rest.split(":")
+                # cut in front of the last statement
+                out += ["%d %s" % (at, ":".join(parts[:-1])), "%d %s" % (at + 3, parts[-1])]
+            else:
+                out.append(l)
+        mp = {int(l.split(" ")[0]): int(l.split(" ")[0]) for l in prog}
+        mp[at + 3] = at
+        cases.append(Case(sess.session(run_calls(out, [])), sig="\n".join(prog) + "\n#split:\n" + "\n".join(out), tag="split", meta=("same", pi, mp)))
+        pi += 1
     # (c'') a remark, an empty statement or nothing at all behind the last line: the program falls off its end the same way
     LAST = ["ON X GOTO 10", "ON 5 GOTO 10,10", "N=N+1:ON 2-N GOTO 10", "IF 0 THEN 10", "ON X GOSUB 10", "FOR I=1 TO 1:NEXT", "WHILE 0:WEND",
             "IF 0 THEN END", "N=N+1:IF N<3 THEN 10", "N=N+1:IF N<2 THEN GOSUB 10", "DEF FNA(X)=X", "DATA 1", "PRINT 2:END", "STOP", "RESTORE 10",
             "IF 0 THEN PRINT 1 ELSE IF 0 THEN 10", "ON X GOTO 10:REM"]
-    pi = nprog + len(FIRST)
+    pi = nprog + 100
     for last in LAST:
         base = ['10 PRINT "A";:N=N+1:IF N>4 THEN END', "20 " + last]
         cases.append(Case(sess.session(run_calls(base, [])), sig="\n".join(base), tag="base", meta=("base", pi, None)))
